@@ -18,10 +18,20 @@ DATA_INIT = 0x1111
 
 def scenario_name(r):
     return f"mm-{r['kind']}-def{r['def']}-{'pie' if r['pie'] else 'nopie'}-E{r['refE']}-L1{r['refL1']}-L2{r['refL2']}" + \
-           (f"-{r['direct']}" if r.get("direct") else "")
+           (f"-{r['direct']}" if r.get("direct") else "") + \
+           (f"-alias{int(r.get('aliasE', False))}{int(r.get('aliasL1', False))}{int(r.get('aliasL2', False))}" if r.get("alias") else "")
 
 
 def view_code(m, ref, rec):
+    code, data = _view_code(m, ref, rec)
+    if rec.get("alias") and rec.get("alias" + m):
+        # this module names the object by its weak alias
+        code = code.replace("x@GOTPCREL", "xw@GOTPCREL").replace("$x,", "$xw,").replace("lea x(", "lea xw(")
+        data = data.replace(".quad x\n", ".quad xw\n")
+    return code, data
+
+
+def _view_code(m, ref, rec):
     mark = f"    jmp 9f\n    .balign 8\n    .ascii \"{mk('site_' + m)}\"\n9:\n"
     if ref == "got":
         return mark + "    movq x@GOTPCREL(%rip), %rax\n    ret\n", ""
@@ -85,6 +95,9 @@ x:
 .size x,8
 x: .quad {DATA_INIT}
 """
+            if rec.get("alias"):
+                # a second, weak name for the same object (the __environ / environ pattern)
+                t += ".weak xw\n.type xw,@object\n.size xw,8\n.set xw, x\n"
     t += data
     if m == "E":
         users = [k for k in MODS if rec["ref" + k] != "none"]
